@@ -1,4 +1,4 @@
 SPECIFICATION Spec
-CONSTANTS Tier = "small" PadFix = TRUE AppendFix = TRUE
+CONSTANTS Tier = "small" PadFix = TRUE AppendFix = TRUE PoolFix = TRUE
 INVARIANTS NotBad
 CHECK_DEADLOCK FALSE
